@@ -222,12 +222,16 @@ type result struct {
 	bubble      run.BubbleResult
 }
 
+var slots = swarmrig.NewSlots(40)
+
 func runScenario(t *testing.T, r *run.R, sc *scenario, caseIdx int) (res result) {
+	slot := slots.Get() // identities are exclusive to this case while it runs (hook dispatch key)
+	defer slots.Put(slot)
 	res.bubble = run.Bubble(t, func(t *testing.T) {
 		rec := &recorder{t0: time.Now()}
 		// identities: local = pool[3 + caseIdx%40], remotes = pool[0..2]
 		pool := swarmrig.Pool(64)
-		localIdx := 3 + caseIdx%60
+		localIdx := 11 + slot
 		peers := map[peer.ID]int{pool.ID[0]: 0, pool.ID[1]: 1, pool.ID[2]: 2}
 		var rmu sync.Mutex
 		prng := r.Rand(7, uint64(caseIdx))
@@ -248,7 +252,7 @@ func runScenario(t *testing.T, r *run.R, sc *scenario, caseIdx int) (res result)
 		relayAddr := func(i int) ma.Multiaddr {
 			return ma.StringCast(fmt.Sprintf("/ip4/9.9.9.9/tcp/4001/p2p/%s/p2p-circuit", pool.ID[10]))
 		}
-		if err := sw.Listen(ma.StringCast("/ip4/7.7.7.7/tcp/4001"), ma.StringCast(fmt.Sprintf("/ip4/9.9.9.9/tcp/4001/p2p/%s/p2p-circuit", pool.ID[10]))); err != nil {
+		if err := sw.Listen(ma.StringCast("/ip4/7.7.7.7/tcp/4001"), ma.StringCast("/p2p-circuit")); err != nil {
 			panic(err)
 		}
 		for k := 0; k < sc.Notifiees; k++ {
